@@ -296,6 +296,107 @@ w('C11', 'UpdateProposer resets the output counter', 'C11.R3',
 w('C11', 'BENIGN: deletion loop as while-style loop with renamed variable', '',
   (HM, '\tfor i := outputIndex; i < nextOutputIndex; i++ {\n\t\tif err := ms.DeleteOutputProposal(ctx, bridgeId, i); err != nil {\n\t\t\treturn nil, err\n\t\t}\n\t}', '\tcur := outputIndex\n\tfor cur < nextOutputIndex {\n\t\tif err := ms.DeleteOutputProposal(ctx, bridgeId, cur); err != nil {\n\t\t\treturn nil, err\n\t\t}\n\t\tcur = cur + 1\n\t}'))
 
+
+DEP='x/opchild/keeper/deposit.go'
+SEQ='x/opchild/keeper/sequences.go'
+CK='x/opchild/keeper/keeper.go'
+# ---------------- C06
+w('C06', 'gate < weakened to <= (expected sequence becomes a NOOP)', 'C06.R1',
+  (CM, '\tif req.Sequence < finalizedL1Sequence {', '\tif req.Sequence <= finalizedL1Sequence {'))
+w('C06', 'the > branch deleted (gaps accepted)', 'C06.R1',
+  (CM, '\t} else if req.Sequence > finalizedL1Sequence {\n\t\treturn nil, types.ErrInvalidSequence\n\t}', '\t}'))
+w('C06', 'NOOP branch also increments the sequence', 'C06.R1',
+  (CM, '\t\t// No op instead of returning an error\n', '\t\t// No op instead of returning an error\n\t\t_, _ = ms.IncreaseNextL1Sequence(ctx)\n'))
+w('C06', 'replays answered with SUCCESS', 'C06.R1',
+  (CM, 'return &types.MsgFinalizeTokenDepositResponse{Result: types.NOOP}, nil', 'return &types.MsgFinalizeTokenDepositResponse{Result: types.SUCCESS}, nil'))
+w('C06', 'replays answered with an error', 'C06.R1',
+  (CM, 'return &types.MsgFinalizeTokenDepositResponse{Result: types.NOOP}, nil', 'return nil, types.ErrInvalidSequence'))
+w('C06', 'sequence incremented twice on the refund path', 'C06.R2',
+  (CM, '\t\tl2Sequence, err := ms.IncreaseNextL2Sequence(ctx)\n\t\tif err != nil {\n\t\t\treturn nil, err\n\t\t}\n\n\t\terr = ms.emitWithdrawEvents(ctx, types.NewMsgInitiateTokenWithdrawal(', '\t\tif _, err := ms.IncreaseNextL1Sequence(ctx); err != nil {\n\t\t\treturn nil, err\n\t\t}\n\t\tl2Sequence, err := ms.IncreaseNextL2Sequence(ctx)\n\t\tif err != nil {\n\t\t\treturn nil, err\n\t\t}\n\n\t\terr = ms.emitWithdrawEvents(ctx, types.NewMsgInitiateTokenWithdrawal('))
+w('C06', 'gate compares with the L2 sequence counter', 'C06.R1',
+  (CM, 'finalizedL1Sequence, err := ms.GetNextL1Sequence(ctx)', 'finalizedL1Sequence, err := ms.GetNextL2Sequence(ctx)'))
+w('C06', 'executor check moved after the gate', 'C06.R3',
+  (CM, '\t// permission check\n\tif err := ms.checkBridgeExecutorPermission(ctx, req.Sender); err != nil {\n\t\treturn nil, err\n\t}\n\n\tfinalizedL1Sequence, err := ms.GetNextL1Sequence(ctx)\n\tif err != nil {\n\t\treturn nil, err\n\t}\n',
+       '\tfinalizedL1Sequence, err := ms.GetNextL1Sequence(ctx)\n\tif err != nil {\n\t\treturn nil, err\n\t}\n\t// permission check\n\tif err := ms.checkBridgeExecutorPermission(ctx, req.Sender); err != nil {\n\t\treturn nil, err\n\t}\n'))
+w('C06', 'getter default differs from the increment default (0 vs 1)', 'C06.R4',
+  (SEQ, '\tif finalizedL1Sequence == collections.DefaultSequenceStart {\n\t\treturn ophosttypes.DefaultL1SequenceStart, nil\n\t}\n\n\treturn finalizedL1Sequence, nil\n}\n\nfunc (k Keeper) SetNextL1Sequence', '\treturn finalizedL1Sequence, nil\n}\n\nfunc (k Keeper) SetNextL1Sequence'))
+w('C06', 'increment helper stores default+2 on first use', 'C06.R4',
+  (SEQ, 'k.NextL1Sequence.Set(ctx, ophosttypes.DefaultL1SequenceStart+1)', 'k.NextL1Sequence.Set(ctx, ophosttypes.DefaultL1SequenceStart+2)'))
+w('C06', 'UpdateOracle resets the L1 sequence (new writer)', 'C06.R2',
+  (CM, '\t// config check\n', '\t_ = ms.NextL1Sequence.Set(ctx, req.Height)\n\t// config check\n'))
+w('C06', 'BENIGN: gate as switch statement', '',
+  (CM, '\tif req.Sequence < finalizedL1Sequence {\n\t\t// No op instead of returning an error\n\t\treturn &types.MsgFinalizeTokenDepositResponse{Result: types.NOOP}, nil\n\t} else if req.Sequence > finalizedL1Sequence {\n\t\treturn nil, types.ErrInvalidSequence\n\t}',
+       '\tswitch {\n\tcase req.Sequence < finalizedL1Sequence:\n\t\treturn &types.MsgFinalizeTokenDepositResponse{Result: types.NOOP}, nil\n\tcase finalizedL1Sequence < req.Sequence:\n\t\treturn nil, types.ErrInvalidSequence\n\t}'))
+
+# ---------------- C07
+w('C07', 'hook failure turned into a handler error', 'C07.R1',
+  (CM, '\t\tif !hookSuccess {\n\t\t\tevent = event.AppendAttributes(sdk.NewAttribute(types.AttributeKeyReason, "hook failed; "+reason))\n\t\t}', '\t\tif !hookSuccess {\n\t\t\treturn nil, fmt.Errorf("hook failed: %s", reason)\n\t\t}'))
+w('C07', 'malformed recipient turned into a handler error', 'C07.R1',
+  (CM, '\tif err != nil {\n\t\tdepositSuccess = false\n\t\treason = fmt.Sprintf("failed to convert recipient address: %s", err)\n\t} else {', '\tif err != nil {\n\t\treturn nil, fmt.Errorf("bad recipient: %w", err)\n\t} else {'))
+w('C07', 'mint on the real context instead of the cache context', 'C07.R2',
+  (DEP, 'ms.bankKeeper.MintCoins(cacheCtx, types.ModuleName, coins)', 'ms.bankKeeper.MintCoins(ctx, types.ModuleName, coins)'))
+w('C07', 'commit before the transfer is attempted', 'C07.R2',
+  (DEP, '\t// transfer can be failed due to contract logics\n', '\tcommit()\n\t// transfer can be failed due to contract logics\n'))
+w('C07', 'success reported without commit', 'C07.R2',
+  (DEP, '\t// write the changes only if the transfer is successful\n\tcommit()\n\tsuccess = true\n', '\t// write the changes only if the transfer is successful\n\tsuccess = true\n\t_ = commit\n'))
+w('C07', 'recover deleted from safeDepositToken', 'C07.R3',
+  (DEP, '\tvar err error\n\tdefer func() {\n\t\tif r := recover(); r != nil {\n\t\t\treason = fmt.Sprintf("panic: %v", r)\n\t\t}\n', '\tvar err error\n\tdefer func() {\n'))
+w('C07', 'hook handlers run on the metered but un-cached context', 'C07.R2',
+  (DEP, '\t\t_, err = handler(cacheCtx, msg)', '\t\t_ = cacheCtx\n\t\t_, err = handler(ctx, msg)'))
+w('C07', 'hook commits inside the loop (partial effects survive a later failure)', 'C07.R2',
+  (DEP, '\t\t\treason = fmt.Sprintf("Failed to execute Msg: %s", err)\n\t\t\treturn\n\t\t}\n\t}\n\n\tcommit()', '\t\t\treason = fmt.Sprintf("Failed to execute Msg: %s", err)\n\t\t\treturn\n\t\t}\n\t\tcommit()\n\t}\n'))
+w('C07', 'hook gas not capped by hookMaxGas', 'C07.R4',
+  (DEP, '\tif gasForHook > hookMaxGas {\n\t\tgasForHook = hookMaxGas\n\t}', '\tif gasForHook < hookMaxGas {\n\t\tgasForHook = hookMaxGas\n\t}'))
+w('C07', 'hook gas never charged to the outer meter', 'C07.R4',
+  (DEP, '\t\toriginGasMeter.ConsumeGas(ctx.GasMeter().GasConsumedToLimit(), "bridge hook")\n', ''))
+w('C07', 'hook decorators run on the unmetered context', 'C07.R4',
+  (DEP, '\t// use new gas meter with the hook max gas limit\n\tctx = ctx.WithGasMeter(storetypes.NewGasMeter(gasForHook))\n\n\ttx, err := k.txDecoder(data)', '\ttx, err := k.txDecoder(data)\n\t_ = storetypes.NewGasMeter(gasForHook)'))
+w('C07', 'reclaim-burn skipped when the hook fails', 'C07.R6',
+  (CM, '\t\tif depositSuccess {\n\t\t\t// reclaim and burn coins', '\t\tif depositSuccess && false {\n\t\t\t// reclaim and burn coins'))
+w('C07', 'refund of half the amount', 'C07.R6',
+  (CM, 'types.NewMsgInitiateTokenWithdrawal(req.To, req.From, coin), l2Sequence)', 'types.NewMsgInitiateTokenWithdrawal(req.To, req.From, sdk.NewCoin(coin.Denom, coin.Amount.QuoRaw(2))), l2Sequence)'))
+w('C07', 'refund sent to the L2 recipient instead of the L1 sender', 'C07.R6',
+  (CM, 'types.NewMsgInitiateTokenWithdrawal(req.To, req.From, coin), l2Sequence)', 'types.NewMsgInitiateTokenWithdrawal(req.From, req.To, coin), l2Sequence)'))
+w('C07', 'refund only when the deposit failed (hook failure keeps the credit and refunds nothing)', 'C07.R6',
+  (CM, '\tif !depositSuccess || !hookSuccess {\n\t\tif depositSuccess {', '\tif !depositSuccess {\n\t\tif depositSuccess {'))
+w('C07', 'L1 sequence incremented only on success', 'C07.R5',
+  (CM, '\t// update l1 sequence\n\tif _, err := ms.IncreaseNextL1Sequence(ctx); err != nil {\n\t\treturn nil, err\n\t}', '\t// update l1 sequence\n\tif depositSuccess {\n\t\tif _, err := ms.IncreaseNextL1Sequence(ctx); err != nil {\n\t\t\treturn nil, err\n\t\t}\n\t}'))
+w('C07', 'hook also runs when the deposit failed', 'C07.R7',
+  (CM, '\tif depositSuccess && len(req.Data) > 0 {', '\tif len(req.Data) > 0 {'))
+w('C07', 'hook gets an unbounded gas allowance constant', 'C07.R7',
+  (CM, 'ms.handleBridgeHook(sdkCtx, req.Data, params.HookMaxGas)', 'ms.handleBridgeHook(sdkCtx, req.Data, params.HookMaxGas*1000)'))
+w('C07', 'BENIGN: refund block extracted into a helper', '',
+  (CM, '\t\tl2Sequence, err := ms.IncreaseNextL2Sequence(ctx)\n\t\tif err != nil {\n\t\t\treturn nil, err\n\t\t}\n\n\t\terr = ms.emitWithdrawEvents(ctx, types.NewMsgInitiateTokenWithdrawal(req.To, req.From, coin), l2Sequence)\n\t\tif err != nil {\n\t\t\treturn nil, err\n\t\t}\n\t}\n\n\treturn &types.MsgFinalizeTokenDepositResponse{Result: types.SUCCESS}, nil',
+       '\t\tif err := ms.refund(ctx, req.To, req.From, coin); err != nil {\n\t\t\treturn nil, err\n\t\t}\n\t}\n\n\treturn &types.MsgFinalizeTokenDepositResponse{Result: types.SUCCESS}, nil'),
+  (CM, '/////////////////////////////////////////////////////\n// The messages for User\n', 'func (ms MsgServer) refund(ctx context.Context, l2Addr, l1Addr string, c sdk.Coin) error {\n\tseq, err := ms.IncreaseNextL2Sequence(ctx)\n\tif err != nil {\n\t\treturn err\n\t}\n\treturn ms.emitWithdrawEvents(ctx, types.NewMsgInitiateTokenWithdrawal(l2Addr, l1Addr, c), seq)\n}\n\n/////////////////////////////////////////////////////\n// The messages for User\n'))
+
+# ---------------- C09
+w('C09', 'burn without the preceding debit of the signer', 'C09.R2',
+  (CM, '\t// send coins to the module account only if the amount is positive\n\tif err := ms.bankKeeper.SendCoinsFromAccountToModule(ctx, senderAddr, types.ModuleName, burnCoins); err != nil {\n\t\treturn nil, err\n\t}\n', '\t_ = senderAddr\n'))
+w('C09', 'withdrawal burns half of what it records', 'C09.R2',
+  (CM, '\t// burn withdrawn coins from the module account\n\tif err := ms.bankKeeper.BurnCoins(ctx, types.ModuleName, burnCoins); err != nil {', '\t// burn withdrawn coins from the module account\n\tif err := ms.bankKeeper.BurnCoins(ctx, types.ModuleName, sdk.NewCoins(sdk.NewCoin(coin.Denom, coin.Amount.QuoRaw(2)))); err != nil {'))
+w('C09', 'withdrawal debits the recipient string instead of the signer', 'C09.R2',
+  (CM, 'senderAddr, err := ms.authKeeper.AddressCodec().StringToBytes(req.Sender)\n\tif err != nil {\n\t\treturn nil, err\n\t}\n\n\t// send coins to the module', 'senderAddr, err := ms.authKeeper.AddressCodec().StringToBytes(req.To)\n\tif err != nil {\n\t\treturn nil, err\n\t}\n\n\t// send coins to the module'))
+w('C09', 'non-L1 token error ignored (native tokens can be withdrawn)', 'C09.R2',
+  (CM, '\terr = ms.emitWithdrawEvents(ctx, req, l2Sequence)\n\tif err != nil {\n\t\treturn nil, err\n\t}\n', '\t_ = ms.emitWithdrawEvents(ctx, req, l2Sequence)\n'))
+w('C09', 'response carries l2Sequence+1', 'C09.R2',
+  (CM, '\t\tSequence: l2Sequence,\n', '\t\tSequence: l2Sequence + 1,\n'))
+w('C09', 'denom mapping overwritten unconditionally', 'C09.R3',
+  (CM, '\t} else if !ok {\n\t\tif err := ms.DenomPairs.Set(ctx, coin.Denom, req.BaseDenom); err != nil {', '\t} else if !ok || true {\n\t\tif err := ms.DenomPairs.Set(ctx, coin.Denom, req.BaseDenom); err != nil {'))
+w('C09', 'denom mapping keyed by base denom', 'C09.R3',
+  (CM, 'ms.DenomPairs.Set(ctx, coin.Denom, req.BaseDenom)', 'ms.DenomPairs.Set(ctx, req.BaseDenom, coin.Denom)'))
+w('C09', 'GetBaseDenom falls back to the denom itself for unknown tokens', 'C09.R3',
+  (CK, '\t\tif errors.Is(err, collections.ErrNotFound) {\n\t\t\treturn "", types.ErrNonL1Token\n\t\t}', '\t\tif errors.Is(err, collections.ErrNotFound) {\n\t\t\treturn denom, nil\n\t\t}'))
+w('C09', 'SpendFeePool spends from the bridge module account', 'C09.R1',
+  (CM, 'ms.bankKeeper.SendCoinsFromModuleToAccount(ctx, authtypes.FeeCollectorName, recipientAddr, req.Amount)', 'ms.bankKeeper.SendCoinsFromModuleToAccount(ctx, types.ModuleName, recipientAddr, req.Amount)'),
+  (CM, '\tauthtypes "github.com/cosmos/cosmos-sdk/x/auth/types"\n', ''))
+w('C09', 'extra mint site: AddValidator mints a bond', 'C09.R1',
+  (CM, '\tif err := ms.SetValidator(ctx, validator); err != nil {\n\t\treturn nil, err\n\t}\n\tif err = ms.SetValidatorByConsAddr', '\t_ = ms.bankKeeper.MintCoins(ctx, types.ModuleName, sdk.NewCoins())\n\tif err := ms.SetValidator(ctx, validator); err != nil {\n\t\treturn nil, err\n\t}\n\tif err = ms.SetValidatorByConsAddr'))
+w('C09', 'withdrawal allocates two L2 sequences (gap)', 'C09.R4',
+  (CM, '\tl2Sequence, err := ms.IncreaseNextL2Sequence(ctx)\n\tif err != nil {\n\t\treturn nil, err\n\t}\n\n\terr = ms.emitWithdrawEvents(ctx, req, l2Sequence)', '\tif _, err := ms.IncreaseNextL2Sequence(ctx); err != nil {\n\t\treturn nil, err\n\t}\n\tl2Sequence, err := ms.IncreaseNextL2Sequence(ctx)\n\tif err != nil {\n\t\treturn nil, err\n\t}\n\n\terr = ms.emitWithdrawEvents(ctx, req, l2Sequence)'))
+w('C09', 'L2 increment helper returns the post-increment value', 'C09.R4',
+  (SEQ, '\t\tif err := k.NextL2Sequence.Set(ctx, types.DefaultL2SequenceStart+1); err != nil {\n\t\t\treturn 0, err\n\t\t}\n\n\t\treturn types.DefaultL2SequenceStart, nil\n\t}\n\n\treturn nextL2Sequence, nil', '\t\tif err := k.NextL2Sequence.Set(ctx, types.DefaultL2SequenceStart+1); err != nil {\n\t\t\treturn 0, err\n\t\t}\n\n\t\treturn types.DefaultL2SequenceStart, nil\n\t}\n\n\treturn nextL2Sequence + 1, nil'))
+
 #@@MORE@@
 for p,l in W.items():
     json.dump(l, open(os.path.join(HERE,p+'.json'),'w'), indent=1)
